@@ -249,17 +249,17 @@ theorem phaseProgram_kept (P : Proj) (svs : List SuiteView) (w : Nat) (suite : P
 
 /-- the kept teardowns of a suite-initialization task -/
 theorem init_task_kept (P : Proj) (insts : Insts) (w : Nat) (t : TaskId) (reason : Bool) (kept : List Td)
-    (cut fl : Option Nat) (hk : t.kind = .init)
+    (cut : Option Nat) (hk : t.kind = .init)
     (sv : SuiteView) (hsv : (allSuites P).find? (fun sv => sv.path == t.path) = some sv) :
     let offered := (initPairs P sv t.path).map (·.2)
-    (∃ n, n ≤ offered.length ∧ (runTask P insts w t true reason kept cut fl).eff.kept = offered.take n) ∨
-    ((runTask P insts w t true reason kept cut fl).eff.kept = offered.filter (· != .none_)) := by
+    (∃ n, n ≤ offered.length ∧ (runTask P insts w t true reason kept cut).eff.kept = offered.take n) ∨
+    ((runTask P insts w t true reason kept cut).eff.kept = offered.filter (· != .none_)) := by
   intro offered
   rw [runTask_kept]
   unfold taskProgram
   simp only [hk, hsv, Bool.not_true, Bool.false_eq_true, if_false, exec_bind, exec_pure]
   rcases phaseProgram_kept P (allSuites P) w t.path (.suiteSetup t.path) (.startSuiteSetup t.path)
-    (.endSuiteSetup t.path) "Setup suite" (initPairs P sv t.path) (ts0 insts cut fl) with ⟨n, hn, h⟩ | ⟨_, h⟩
+    (.endSuiteSetup t.path) "Setup suite" (initPairs P sv t.path) (ts0 insts cut) with ⟨n, hn, h⟩ | ⟨_, h⟩
   · exact Or.inl ⟨n, by simpa [offered] using hn, h⟩
   · exact Or.inr h
 
